@@ -18,8 +18,13 @@ static vstr *vf_vec_slot(void *v)
   __CPROVER_assert(p[1] < p[2], "vector model: at most VF_VEC_CAP elements"); __CPROVER_assume(p[1] < p[2]);
   vstr *e = p[1]; p[1] = e + 1; return e;
 }
+#ifdef VF_VEC_OPAQUE    /* opaque-name runs (1000+ elements): elements are not constructed (their text is never observed), only counted */
+void st_vecstr_push(void *v, void *s) { vf_vec_slot(v); }
+void st_vecstr_push_rv(void *v, void *s) { vf_vec_slot(v); }
+#else
 void st_vecstr_push(void *v, void *s) { x__ZNSt7__cxx1112basic_stringIcSt11char_traitsIcESaIcEEC2ERKS4_(vf_vec_slot(v), (vstr*)s); }
 void st_vecstr_push_rv(void *v, void *s) { x__ZNSt7__cxx1112basic_stringIcSt11char_traitsIcESaIcEEC2EOS4_(vf_vec_slot(v), (vstr*)s); }
+#endif
 void *st_vecstr_at(void *v, uint64_t i)
 {
   vstr **p = (vstr**)v; uint64_t n = (uint64_t)(p[1] - p[0]);
@@ -32,6 +37,8 @@ void *st_vecstr_at(void *v, uint64_t i)
 }
 void st_vecstr_dtor(void *v)
 {
+#ifndef VF_VEC_OPAQUE
   vstr **p = (vstr**)v;
   for (int k = 0; k < VF_VEC_CAP; k++) if (p[0] + k < p[1]) x__ZNSt7__cxx1112basic_stringIcSt11char_traitsIcESaIcEED2Ev(p[0] + k);
+#endif
 }
